@@ -52,16 +52,24 @@ func PanicSite(text string) string {
 	}
 	msg = strings.TrimPrefix(msg, "panic: ")
 	site := "unknown-frame"
-	if m := reFrame.FindStringSubmatch(text); m != nil {
-		site = m[1][strings.LastIndex(m[1], "/")+1:]
-	} else if m := reArrow.FindStringSubmatch(text); m != nil {
-		site = "arrow-go/" + m[1][strings.LastIndex(m[1], "/")+1:]
+	arrowSite := ""
+	for _, m := range reAnyFrame.FindAllStringSubmatch(text, -1) {
+		f := m[1]
+		if strings.HasPrefix(f, "github.com/Query-farm/vgi-rpc-go/") {
+			site = normFrame(f)
+			break
+		}
+		if arrowSite == "" && strings.HasPrefix(f, "github.com/apache/arrow-go/") && !strings.Contains(f, "/arrow/memory.") {
+			arrowSite = normFrame(f)
+		}
 	}
-	site = strings.NewReplacer("(*", "", ")", "", "[...]", "").Replace(site)
+	if site == "unknown-frame" && arrowSite != "" {
+		site = arrowSite
+	}
 	return site + ":" + slug(msg)
 }
 
-var reAnyFrame = regexp.MustCompile(`(?m)^([A-Za-z0-9_./\-]+(?:\.[^\s(]+)+)\(`)
+var reAnyFrame = regexp.MustCompile(`(?m)^([A-Za-z0-9_][^\s]*)\([^()]*\)[ \t]*(?:fp=.*)?$`)
 
 // AllocSite names where a dying process was when the runtime gave up: the
 // first frame of the crashing goroutine that is neither the Go runtime nor
